@@ -1111,6 +1111,13 @@ func (rn *runner) tree(r *lib.Rng, root *gdir, wellFormed, loopFree bool, label 
 		}
 		// O4: for every page size, the pages concatenate to the full listing, then io.EOF (twice)
 		full, _, _ := doReadDir(fsys, p, []int{-1})
+		c.Oracle()
+		if after, _, pan := doReadDir(fsys, p, []int{-1, -1, 0, 1, -1}); pan || len(after) != 5 ||
+			len(after[1].Entries)+len(after[2].Entries)+len(after[3].Entries)+len(after[4].Entries) != 0 ||
+			after[1].EOF || after[2].EOF || !after[3].EOF || after[4].EOF || len(after[0].Entries) != total {
+			c.Fail("readdir-paging", fmt.Sprintf("ReadDir(-1) on %q then ReadDir(-1), (0), (1), (-1): want everything, then nothing+nil, nothing+nil, io.EOF, nothing+nil", p),
+				js("readdir", rootWD, p, map[string]any{"ns": []int{-1, -1, 0, 1, -1}, "pages": after}))
+		}
 		for n := 1; n <= total+1; n++ {
 			c.Oracle()
 			calls := make([]int, total+3)
@@ -1351,10 +1358,11 @@ func main() {
 		}
 
 		var replay struct {
-			Tree *gdir `json:"tree"`
+			Tree *gdir  `json:"tree"`
+			Op   string `json:"op"`
 		}
 		if c.ReadReplay(&replay) && replay.Tree != nil {
-			rn.tree(c.Rng.Fork(), replay.Tree, true, false, "replay", 40, true)
+			rn.tree(c.Rng.Fork(), replay.Tree, true, replay.Op == "testfs", "replay", 40, true)
 			rn.finish()
 			return
 		}
